@@ -40,7 +40,11 @@ def run(chk):
     chk.rule('C03-R3', 'duplicate paths and mixed catalogs are rejected with an error', 2)
     chk.rule('C03-R4', 'the filter sees the cleaned count as N exactly when the final rename N_total -> N happens', 2)
     chk.rule('C03-R5', 'a filter that keeps nothing is safe: cumulative sums over empty per-halo arrays stay in bounds', 1)
+    chk.rule('C03-R6', 'every superslab\'s particle files are zipped with the rows the per-file counts select, whatever the filter kept: no data-dependent '
+                       'path through the per-file loop of _load_subsamples skips or alters the kernel call (obligations C01-R3/R4)', 5)
     chk.assume('astropy slicing/assignment semantics (a slice of a Table is a view; halos[:n] = halos[mask] copies rows in order)')
+    from . import c01
+    chk.import_from(c01.run, 'C01', ('C01-R3', 'C01-R4'), 'C03-R6')
     loops = [s for s in fn.body if isinstance(s, ast.For) and 'enumerate(afs)' in unparse(s.iter)]
     if len(loops) != 1:
         raise AnalysisError('_read_halo_info: per-file loop not found')
